@@ -24,7 +24,7 @@ META = dict(
                "searches, select indexes / node_count, every search except algorithm Index; excluded exactly SelectAllAliases and the Index search) returns on the database loaded after the maintenance operation EXACTLY "
                "the result it returns on d (ids, order, properties, aliases); C05_db_stored_depends_on_map_only; non-vacuity C05_db_sample: a database (2 nodes, 1 edge, alias, inline and out-of-line values, an index) "
                "created by the collection programs on the storage model satisfies stored_db for the database three queries produce, load_db returns exactly it, also after optimize / reopen / backup and on the "
-               "memory-like storage. CORE MUTATIONS (theories/StoredDbOps*.v): DbImpl::insert_node / insert_edge (graph.rs GraphImpl over GraphDataStorage: transaction, get_free_index = free-list pop or grow, set_edge, node count, validate_node), reserve_key_value_capacity / insert_key_value / insert_or_replace_key_value (db_key_value.rs DbKeyValues over the slot vector and the elements' DbVec<DbKeyValue>: resize of the slot vector, allocation of a property vector for an element without properties, value indexes of C12, lazy search + replace in place or reserve + push) modelled as PROGRAMS over the storage that branch on the storage's answers; C05_db_insert_node_preserves_stored_db, C05_db_insert_edge_preserves_stored_db, C05_db_reserve_key_value_capacity_preserves_stored_db, C05_db_insert_key_value_preserves_stored_db, C05_db_insert_or_replace_key_value_preserves_stored_db: in every state of the abstract record map holding d (stored_db_w) with DbImpl's handles those of the witness (C05_db_open_handles: so_open = from_storage), under EXPLICIT side conditions (so_graph_ok: arrays of one length < 2^60, free-list head i64::MIN or in range, node count in [0, 2^63-1); so_edge_ok: the two degree counters stay i64; |id| < 2^60; u64 sizes; values wf_value; the key(s) NOT indexed), for every answer sequence the record map allows the program does not die, returns DbModel's result (same id / replaced pair) and ends in a state holding DbModel's database, the witness changed in the operated component only and the change confined to the footprint (frame), same transaction depth; C05_db_core_histories_preserve_stored_db: EVERY history of the five; C05_db_core_operations_preserve_stored_db_partial: the same on the MODEL of storage.rs (C04, file-like and memory-like) from any state refining a map that holds d: so_open then the history dies by a storage panic or returns DbModel's outputs in a state refining a map that holds DbModel's final database; non-vacuity C05_db_sample_core_operations: on the example database, so_open; insert_node; reserve; insert_key_value (out-of-line value) RUN on the storage model, every answer replayed on the abstract map, so the theorems apply to that run: id 4, the final record store satisfies stored_db for DbModel's result and load_db returns exactly it. graph.rs REMOVALS, graph component only: C05_db_remove_edge_graph_preserves_stored_db (GraphImpl::remove_edge in full — validate_edge, remove_from_edge / remove_to_edge with the head case and the while walk to the predecessor on fuel = capacity, free_index — under so_remove_edge_ok: visited slots inside the arrays, walks end within capacity rounds, decremented counters stay i64), C05_db_remove_isolated_node_graph_preserves_stored_db (GraphImpl::remove_node for a node WITHOUT edges; the cascade over its edges is modelled but not proved), non-vacuity C05_db_sample_remove_edge; C05_db_query_remove_edge_preserves_stored_db: the PUBLIC removal of an edge (so_q_remove = DbImpl::remove_id on an edge id inside transaction_mut's storage transaction: graph.remove_edge + remove_all_values = DbKeyValues::remove — the element's vector and every out-of-line record of its pairs freed, the slot vector popped when it was the last slot, else the slot set to 0; keys not indexed; the element has a property vector: so_slot_valid, a condition on the file that every element inserted through the public API satisfies) keeps the database stored and computes DbModel's remove_all_values (remove_edge_db d e); C05_db_query_insert_node_preserves_stored_db / C05_db_query_insert_values_preserves_stored_db: the very programs the correspondence run (d) executes (so_q_insert_node, so_q_insert_values: the core operations as the public queries issue them inside one storage transaction) keep the database stored and compute the composition of DbModel's functions; C05_db_graph_side_condition_from_wf: so_graph_ok follows from C08's wf and capacity < 2^60 (so_edge_ok / so_remove_edge_ok are not linked to wf). The removal of a NODE's alias and the cascade over its edges are not covered. Of the side conditions only so_graph_ok is proved of every well-formed graph; the others are stated explicitly. MISSING LINK for the rest (named in Props/C05.v, not proved): C05_db_operations_preserve_stored_db — that each DbImpl mutation (db.rs over graph.rs / multi_map.rs / db_key_value.rs / db_index.rs "
+               "memory-like storage. CORE MUTATIONS (theories/StoredDbOps*.v): DbImpl::insert_node / insert_edge (graph.rs GraphImpl over GraphDataStorage: transaction, get_free_index = free-list pop or grow, set_edge, node count, validate_node), reserve_key_value_capacity / insert_key_value / insert_or_replace_key_value (db_key_value.rs DbKeyValues over the slot vector and the elements' DbVec<DbKeyValue>: resize of the slot vector, allocation of a property vector for an element without properties, value indexes of C12, lazy search + replace in place or reserve + push) modelled as PROGRAMS over the storage that branch on the storage's answers; C05_db_insert_node_preserves_stored_db, C05_db_insert_edge_preserves_stored_db, C05_db_reserve_key_value_capacity_preserves_stored_db, C05_db_insert_key_value_preserves_stored_db, C05_db_insert_or_replace_key_value_preserves_stored_db: in every state of the abstract record map holding d (stored_db_w) with DbImpl's handles those of the witness (C05_db_open_handles: so_open = from_storage), under EXPLICIT side conditions (so_graph_ok: arrays of one length < 2^60, free-list head i64::MIN or in range, node count in [0, 2^63-1); so_edge_ok: the two degree counters stay i64; |id| < 2^60; u64 sizes; values wf_value; the key(s) NOT indexed), for every answer sequence the record map allows the program does not die, returns DbModel's result (same id / replaced pair) and ends in a state holding DbModel's database, the witness changed in the operated component only and the change confined to the footprint (frame), same transaction depth; C05_db_core_histories_preserve_stored_db: EVERY history of the five; C05_db_core_operations_preserve_stored_db_partial: the same on the MODEL of storage.rs (C04, file-like and memory-like) from any state refining a map that holds d: so_open then the history dies by a storage panic or returns DbModel's outputs in a state refining a map that holds DbModel's final database; non-vacuity C05_db_sample_core_operations: on the example database, so_open; insert_node; reserve; insert_key_value (out-of-line value) RUN on the storage model, every answer replayed on the abstract map, so the theorems apply to that run: id 4, the final record store satisfies stored_db for DbModel's result and load_db returns exactly it. graph.rs REMOVALS, graph component only: C05_db_remove_edge_graph_preserves_stored_db (GraphImpl::remove_edge in full — validate_edge, remove_from_edge / remove_to_edge with the head case and the while walk to the predecessor on fuel = capacity, free_index — under so_remove_edge_ok: visited slots inside the arrays, walks end within capacity rounds, decremented counters stay i64), C05_db_remove_isolated_node_graph_preserves_stored_db (GraphImpl::remove_node for a node WITHOUT edges; the cascade over its edges is modelled but not proved), non-vacuity C05_db_sample_remove_edge; C05_db_query_remove_edge_preserves_stored_db: the PUBLIC removal of an edge (so_q_remove = DbImpl::remove_id on an edge id inside transaction_mut's storage transaction: graph.remove_edge + remove_all_values = DbKeyValues::remove — the element's vector and every out-of-line record of its pairs freed, the slot vector popped when it was the last slot, else the slot set to 0; keys not indexed; the element has a property vector: so_slot_valid, a condition on the file that every element inserted through the public API satisfies) keeps the database stored and computes DbModel's remove_all_values (remove_edge_db d e); C05_db_query_insert_node_preserves_stored_db / C05_db_query_insert_values_preserves_stored_db: the very programs the correspondence run (d) executes (so_q_insert_node, so_q_insert_values: the core operations as the public queries issue them inside one storage transaction) keep the database stored and compute the composition of DbModel's functions; C05_db_graph_side_condition_from_wf: so_graph_ok follows from C08's wf and capacity < 2^60 (so_edge_ok / so_remove_edge_ok are not linked to wf). C05_db_query_remove_isolated_node_preserves_stored_db: the same for the public removal of a NODE without edges and without alias (DbModel's remove_node_db d n None succeeds and the final store holds remove_all_values of its result). The removal of a node's alias and the cascade over its edges are not covered. Of the side conditions only so_graph_ok is proved of every well-formed graph; the others are stated explicitly. MISSING LINK for the rest (named in Props/C05.v, not proved): C05_db_operations_preserve_stored_db — that each DbImpl mutation (db.rs over graph.rs / multi_map.rs / db_key_value.rs / db_index.rs "
                "on the storage) leaves a storage state representing the DbModel result, i.e. that stored_db holds after every history of queries — open for insert_alias / insert_new_alias / remove_alias (multi_map.rs over the alias tables: needs C19's PInv in the relation), insert_index / remove_index and every index update for an indexed key, DbImpl's remove_edge / remove_node beyond the graph part (cascade over a node's edges, properties, alias), remove_keys / remove_all_values, transactions + undo, shrink_to_fit; checked on every run by correspondence (c) and (d) below. Its SHAPE is carried out for one component: "
                "C05_db_graph_histories_preserve_stored_db_partial — EVERY history of the GraphData interface (the interface graph.rs is written against) run on the graph of a stored database leaves a stored database whose graph arrays "
                "are the plain arrays' result and whose aliases, indexes and values are unchanged, the change confined to the database's footprint (from C05_graph_history, the pairwise distinct footprints and C05_db_footprint_live); "
